@@ -6,6 +6,7 @@ from ..rules_flow import k17_entry, k18_annotate
 
 def run(ctx):
     r = ctx.report
+    r.skip.add("K16.references-kept")  # the product's reference list is C10/C11 business
     r.explanation = (
         "K17: the id/name keywords of assemble() reach the manager's id/name unswapped, with every module and the vector. "
         "K18: on every path of _annotate_assembly the product receives that id and name, topology=circular, a "
